@@ -31,7 +31,9 @@ def gen(ctx, count, directed=False):
                 continue
             mb = rng.choice([1, 1, 2])
             shuffle = rng.random() < 0.3
-        c = {"seed": sub, "spec": spec, "g": str(g), "mb": mb, "shuffle": shuffle, "random_seed": rng.randrange(100), "sweeps": sweeps}
+        # boundary seeds (0 is falsy in Python; 2^31-1 / 2^32-1 are the integer limits of PRNGKey) appear as often as ordinary ones
+        rseed = rng.choice([0, 0, 1, 2 ** 31 - 1, 2 ** 32 - 1]) if rng.random() < 0.3 else rng.randrange(100)
+        c = {"seed": sub, "spec": spec, "g": str(g), "mb": mb, "shuffle": shuffle, "random_seed": rseed, "sweeps": sweeps}
         # exactness guard on the fixed-order reference (permutation unknown before the run)
         ref = mdpgen.Ref(spec)
         V = runs.init_values(spec)
@@ -146,6 +148,8 @@ def run(ctx, build):
                 corr.append({"what": "model sweep (both scatter resolutions) and implementation disagree", "seed": meta[i]["seed"], "devices": dv, "input": {"case": meta[i], "devices": dv}})
     # reproducibility: same seed -> identical sequence; different seed -> a different permutation sequence
     shuf = [c for c in cs if c["shuffle"] and c["spec"]["nS"] >= 5][:6]
+    if shuf:
+        shuf.append(dict(shuf[0], random_seed=0))   # seed 0 is always among the reproducibility cases
     again = core.run_workers(ctx, [job_of(c) for c in shuf] + [job_of(c, seed_override=c["random_seed"] + 1) for c in shuf])
     first = core.run_workers(ctx, [job_of(c) for c in shuf])
     for i, c in enumerate(shuf):
